@@ -239,7 +239,7 @@ def run_reduce(case, gb=None):
     tr = {k: case[k] for k in ("op", "keys", "vals", "mask", "tf", "oo", "sort")}
     if op in ("var", "std"):
         tr["ddof"] = case.get("ddof", 1)
-    tr.update(emb=case["emb"], kenc=case["kenc"], nonull=int(emb.nonull), cfg={k: case.get(k) for k in ("T", "R", "kcont", "vcont", "mcont")})
+    tr.update(emb=case["emb"], kenc=case["kenc"], nonull=int(emb.nonull), cfg={k: case.get(k) for k in ("T", "R", "kcont", "vcont", "mcont", "pre")})
     try:
         keyobj, encs = build_keys(case)
         tr["rank"], tr["seed"] = key_meta(case, encs)
@@ -252,6 +252,11 @@ def run_reduce(case, gb=None):
     try:
         if gb is None:
             gb = call(GroupBy, keyobj, sort=bool(case["sort"]))
+        for pre in case.get("pre") or []:       # earlier calls on the same object (they may re-code chunked keys)
+            if pre == "groups":
+                gb.groups
+            elif pre == "size":
+                call(gb.size)
         kw = dict(mask=mask, transform=bool(case["tf"]), observed_only=bool(case["oo"]))
         if op == "size":
             out = call(gb.size, **kw)
@@ -292,3 +297,31 @@ def run_reduce(case, gb=None):
         elif vc not in ("pl", "plframe") and isinstance(out, (pd.Series, pd.DataFrame)):
             tr["idxok"] = int(list(out.index) == list(range(n)))
     return tr
+
+
+def run_value_counts(case):
+    """groupby.value_counts(x, normalize, mask): returns [size-trace for GBCore, normalisation trace]."""
+    from groupby_lib.groupby import value_counts
+    n = len(case["keys"])
+    set_config(case)
+    tr = {k: case[k] for k in ("keys", "mask", "sort")}
+    tr.update(op="size", vals=[1] * n, tf=0, oo=1, emb="f64", kenc=case["kenc"], nonull=0, cfg={k: case.get(k) for k in ("T", "kcont", "mcont")}, fn="value_counts")
+    keyobj, encs = build_keys(case)
+    tr["rank"], tr["seed"] = key_meta(case, encs)
+    mask = build_call_mask(case, n)
+    nt = {"fn": "value_counts_normalize", "keys": case["keys"], "mask": case["mask"], "cfg": tr["cfg"]}
+    try:
+        out = call(value_counts, keyobj, mask=mask)
+        tr["out"] = "ok"
+        tr["res"] = [int(x) for x in out.tolist()]
+        tr["labels"] = [[encs[0].dec(x)] for x in out.index.tolist()]
+    except Exception as ex:
+        tr.update(out="raise", exc=type(ex).__name__, msg=str(ex)[:200], labels=[], res=[])
+        nt.update(out="raise", counts=[], norm=[], labels_same=0)
+        return [tr, nt]
+    try:
+        nrm = call(value_counts, keyobj, normalize=True, mask=mask)
+        nt.update(out="ok", counts=tr["res"], norm=[to_rat(float(x)) for x in nrm.tolist()], labels_same=int(list(map(str, nrm.index.tolist())) == list(map(str, out.index.tolist()))))
+    except Exception as ex:
+        nt.update(out="raise", exc=type(ex).__name__, msg=str(ex)[:200], counts=tr["res"], norm=[], labels_same=0)
+    return [tr, nt]
